@@ -21,6 +21,7 @@ RULE = (
     ' Round 5: rows out of beat order.'
     ' Round 6: inputs of float/Decimal/str subclasses (SongTime), slices and copies of BeatValues.'
     ' Round 7: pairs with a negative denominator (==, hash, order).'
+    ' Round 8: zero and one as operands.'
 )
 EXHAUSTIVE_PART = "tick_text over every k/48 with |k| <= 96000 (192001 beats)"
 ASSUMPTIONS = [
